@@ -49,17 +49,22 @@ def weighted_choice(choices: List[Tuple[float, object]]):
     return random.choices(options, weights, k=1)[0]
 
 
-@lru_cache(maxsize=512)
 def parse_date(d: Union[str, datetime, date]) -> date:
     if isinstance(d, datetime):
         return d.date()
     elif isinstance(d, date):
         return d
 
-    return dateutil.parser.parse(d).date()
+    return _parse_date_str(d)
 
 
 @lru_cache(maxsize=512)
+def _parse_date_str(d: str) -> date:
+    # only strings are cached: datetimes of one instant but different
+    # UTC offsets are equal as cache keys yet have different dates
+    return dateutil.parser.parse(d).date()
+
+
 def parse_datetimespec(d: Union[str, datetime, date]) -> datetime:
     """Parse a string, datetime or date into a datetime."""
     if isinstance(d, datetime):
@@ -73,12 +78,18 @@ def parse_datetimespec(d: Union[str, datetime, date]) -> datetime:
             return datetime.combine(
                 date.today(), datetime.min.time(), tzinfo=timezone.utc
             )
-        d = dateutil.parser.parse(d)
-        if not d.tzinfo:
-            d = d.replace(tzinfo=timezone.utc)
-        return d
+        return _parse_datetime_str(d)
     elif isinstance(d, date):
         return datetime.combine(d, datetime.min.time(), tzinfo=timezone.utc)
+
+
+@lru_cache(maxsize=512)
+def _parse_datetime_str(d: str) -> datetime:
+    # only strings are cached (not "now"/"today", not datetime objects)
+    dt = dateutil.parser.parse(d)
+    if not dt.tzinfo:
+        dt = dt.replace(tzinfo=timezone.utc)
+    return dt
 
 
 def render_boolean(context: PluginContext, value: FieldDefinition) -> bool:
